@@ -560,6 +560,7 @@ def main(modname: str, argv: list[str]) -> int:
                 "observations": obs,
                 "distinct_schedules": len(scheds),
                 "distinct_states": len(states),
+                "measures": getattr(mod, "MEASURES", {}),
                 "components": mod.COMPONENTS,
                 "known_findings_seen": {eid: cnt for eid, (e, cnt) in sorted(known_seen.items())},
                 "violation_records": total_records,
